@@ -129,3 +129,43 @@ Proof.
   - eexists. vm_compute. reflexivity.
 Qed.
 Print Assumptions C01_bit_semantics_example.
+
+(* ------------------------------------------------------------------ the last step, proved for a
+   fragment: the bit-level semantics IS the source semantics (Lang/Sem.v) on pure scalar
+   expressions (literals, variables, casts, unary minus, !, the sixteen binary operators,
+   if/else; all integer widths), for every environment and all operand values.  With
+   C01_circuit_computes_bit_semantics this is an end-to-end statement "emitted circuit = Sem.v"
+   for that fragment that no longer depends on sampled inputs.  [exact_tys] excludes trees
+   whose annotations conflate i32 and u32 (Wt.ty_eqb admits them; counterexample proved in
+   TSemSemExpr.Conflation, the known finding c05-literal-width-divergence). *)
+From GV Require Lang.Wt.
+From GV Require Import Compile.TSemFacts Compile.TSemSemExpr.
+
+Theorem C01_scalar_expressions_bit_semantics_is_source_semantics :
+  forall fuel P e en E g fw,
+  pure_scalar e = true -> Wt.wt_expr fw P g e = true -> exact_tys g e = true ->
+  env_rel en E g -> Forall keys_distinct E ->
+  match Sem.eval fuel P en e with
+  | Sem.Done (v, en') =>
+      Sem.scopes en' = Sem.scopes en /\ val_ok (e_ty e) v /\
+      forall fuel', (depth e < fuel')%nat ->
+        lower_expr tops fuel' P e E None = Ok ((enc_val (e_ty e) v, E), None)
+  | Sem.Panicked r m =>
+      forall fuel', (depth e < fuel')%nat ->
+        exists w, lower_expr tops fuel' P e E None =
+                  Ok ((w, E), Some (preason_num (pr r), ploc32 (ploc_of m)))
+  | Sem.Stuck _ => False
+  | Sem.NoFuel => True
+  end.
+Proof. exact tsem_sem_expr. Qed.
+Print Assumptions C01_scalar_expressions_bit_semantics_is_source_semantics.
+
+(* the bit-level semantics of the fragment never crashes, and a recorded panic is never lost *)
+Theorem C01_scalar_expressions_bit_semantics_total :
+  forall P g E e fw fuel o,
+  pure_scalar e = true -> Wt.wt_expr fw P g e = true -> exact_tys g e = true ->
+  env_shape E g -> Forall keys_distinct E -> (depth e < fuel)%nat ->
+  exists w o', lower_expr tops fuel P e E o = Ok ((w, E), o') /\
+               length w = tw (e_ty e) /\ sticky o o'.
+Proof. exact tsem_total. Qed.
+Print Assumptions C01_scalar_expressions_bit_semantics_total.
